@@ -87,6 +87,7 @@ def ex_catalog(ctx, ev, catalog_id=None, name=None, lat_case=None, header=True, 
         reg, model, origins = c01.build_region(lat_case)
     src = CSEPCatalog(data=list(ev), catalog_id=catalog_id, name=name, region=reg)
     rc = {"exec": "catalog", "args": {"ev": ev, "catalog_id": catalog_id, "name": name, "lat_case": lat_case, "header": header, "seed": seed}}
+    ctx.current_case = rc
     tags = {"empty": len(ev) == 0, "hostile_id": any(any(ch in e[0] for ch in ',"; \t\'') for e in ev), "pre1970": any(e[1] < 0 for e in ev),
             "with_region": reg is not None, "catalog_id": catalog_id is not None}
     tmp = tempfile.mkdtemp(prefix="c14-", dir=os.environ.get("VERIF_TMP", "/var/tmp"))
